@@ -26,11 +26,12 @@ CHECKS = {
  "C12": ("exploration", "comp", "Component simulation of the reactor API under concurrent producers/consumers/freeze with simulator-owned select tie-breaks: bounded in-flight seeds, table = accepted-unfinished, feedback/finish semantics incl. unknown ids and repeats, delivery of accepted seeds, no insert after freeze, no deadlock.", "DESIGN.md 4/C12"),
  "C13": ("exploration", "comp", "Component simulation of the per-host limiter on the fake clock: window bound on release instants, penalty lower bounds and cap, state ranges from limiter snapshots, over capacities/rates/streaks/gaps and concurrent waiters.", "DESIGN.md 4/C13"),
  "C14": ("exploration", "comp", "Component simulation of the pause manager with worker-shaped subscribers and several independent controllers running matched/unmatched pause/resume scripts, worker exits and shutdown: every call returns, no work between acknowledgement and resume, resume wakes all.", "DESIGN.md 4/C14"),
- "C17": ("exploration", "e2e", "Conservation in simulated crawls: totals (URLs crawled, seeds finished), worker gauges (live workers while running, 0 after stop) and the mean response time are compared with ground truth counted from hook events at idle and after stop.", "DESIGN.md 4/C17"),
+ "C17": ("exploration", "e2e", "Component simulation on a statement-level instrumented copy of the stats package re-generated from /repo at every run (yield before every statement, nested calls hoisted, non-atomic read-modify-write split, simulator-aware mutex): 2-6 concurrent clients, end state compared with a sequential model. Plus conservation in simulated crawls: totals (URLs crawled, seeds finished), worker gauges (live workers while running, 0 after stop) and the mean response time are compared with ground truth counted from hook events at idle and after stop.", "DESIGN.md 4/C17"),
  "C10": ("exploration", "e2e", "The simulated origin is the adversary: generated and mutated bodies of every declared type plus hostile Location/Link/Content-Type/Content-Encoding headers and lying lengths, crawled next to well-behaved bystander seeds. A crash of the process, a goroutine still running inside input processing at the wall-clock limit, a seed never finished or a bystander URL never fetched is a violation.", "DESIGN.md 4/C10"),
  "C15": ("fault_enumeration", "e2e", "Crawls with outlinks against a simulated stateful crawl HQ under generated per-call fault sequences (5xx, reset before/after apply, timeout) or against the local sqlite queue; once idle, the multiset of (text, via, hops) and finish ids emitted by the pipeline is compared with what the queue applied; hops/via must survive the round trip back into a seed.", "DESIGN.md 4/C15"),
  "C18": ("exploration", "e2e", "The real disk watchdog loop on the fake clock with a seeded free-space history behind the statfs seam: every tick verdict and every pause/resume is compared with an exact rational reference; the start-up decision is compared on boundary-biased (total, free, setting) triples, with monotonicity on every pair.", "DESIGN.md 4/C18"),
  "C19": ("exploration", "e2e", "Generated JSON/XML/RSS/sitemap/M3U8 documents with URLs planted by construction must be fetched as assets or queued as outlinks according to their extension; a stateful simulated S3-style service (both listing APIs, delimiter, zero-size keys, page sizes 1-7) must be walked through queue -> seed -> fetch until every non-empty object is queued, with a bounded number of listing requests.", "DESIGN.md 4/C19"),
+ "C16": ("exploration", "e2e", "Paired simulated crawls with N and 4N generated seeds under the same configuration: 31 simulated minutes after the queue drained the process footprint is sampled (reactor table, limiter buckets, temp directory, /proc/self/fd by class, goroutines by entry function); absolute requirements on each run and equality between the two.", "DESIGN.md 4/C16"),
 }
 
 NA_REASON = "check under construction in this round; see DESIGN.md section 4 for the planned simulation"
